@@ -1,5 +1,15 @@
 import re
 
+
+def _nontrivial(inp):
+    """Both populations together hold at least 2 individuals, all evaluated, at least two populations
+    (i.e. inside the property's quantifier); every frequency case (>= 2000 executions each) counts."""
+    if inp.startswith("(freq"):
+        return True
+    inds = inp.count("(") - inp.count("(pop") - 4 - (1 if "(via replace)" in inp else 0)
+    return inds >= 2 and inp.count("(pop") >= 2 and " u)" not in inp
+
+
 CONFIG = dict(
     bin="c12",
     drv="drv_c12",
@@ -8,35 +18,55 @@ CONFIG = dict(
     shrink_lists=["pop", "stack"],
     level="proof",
     rule=("population stacks of uniquely tagged individuals with explicit objective values, executed through the real "
-          "component's `execute` on a State holding Populations + Random: (1) exhaustive — every pair (parents, offspring) "
-          "of populations of size 0..3 (quick) / 0..4 (thorough) over a 3-value objective grid (ties, duplicates), with and "
-          "without a population below, for DiscardOffspring, Generational, Merge, KeepBetterAtIndex and MuPlusLambda with "
-          "every mu in 0..a+b+1 and 10; (2) RandomReplacement on all size pairs 0..4 x mu 0..10 x 10 (quick) / 40 (thorough) "
-          "seeds; (3) seeded random stacks (sizes up to 8, 10% up to 39; 11-value grid incl. +inf, signed zeros, 1e300; depth "
-          "2..4; all operators); (3b) offspring containing exact clones of parents (same tag and objective; multiset "
-          "multiplicities matter); (4) a separate 'malformed' stream (fewer than two populations, unevaluated individuals) on "
-          "which only the model's predicted Err/panic/stack is compared. A case is non-trivial if both populations together "
-          "hold at least 2 individuals and the stream is not 'malformed'; distinct = distinct input string."),
-    nontrivial=lambda inp: inp.count("(") - inp.count("(pop") >= 6,
+          "component's `execute` on a State holding Populations + Random (components built with `new`): (1) exhaustive — every "
+          "pair (parents, offspring) of populations of size 0..3 (quick) / 0..4 (thorough) over a 3-value objective grid (ties, "
+          "duplicates), with and without a population below, for DiscardOffspring, Generational, Merge, KeepBetterAtIndex and "
+          "MuPlusLambda with every mu in 0..a+b+1 and 10; (2) RandomReplacement on all size pairs 0..4 x mu 0..10 x 10 (quick) / "
+          "40 (thorough) seeds; (3) seeded random stacks (sizes up to 8, 10% up to 39; 11-value grid incl. +inf, signed zeros, "
+          "1e300; depth 2..4; all operators); (3b) offspring containing exact clones of parents; (3c) the same individual "
+          "(tag and objective) several times inside one population and across both; (3d) large populations (30..400 parents, "
+          "0..200 offspring, few or many distinct objective values) with mu at 0, 1, a, n-1, n, n+1 and random; (3e) mu at the "
+          "u8/u16/i32/u32 boundaries (255 .. 2^32-1); (3f) sites `<Op>/replace`: the public trait method `Replacement::replace` "
+          "called directly on components built with `from_params` (exhaustive pairs of sizes 0..2 x every mu, random pairs up to "
+          "11+11, boundary mu); (4) a separate 'malformed' stream (fewer than two populations, unevaluated individuals) on which "
+          "only the model's predicted Err/panic/stack is compared (for MuPlusLambda with an unevaluated individual either the panic "
+          "or the no-panic result is accepted); (5) site `RandomReplacement/freq`: the real RandomReplacement executed 2000 (quick) "
+          "/ 8000 (thorough) times with different seeds on 10 size pairs x up to 6 values of mu; per input position the number of "
+          "survivals must lie within 6 standard deviations (+1) of runs*min(mu,n)/n, per pair of positions the number of joint "
+          "survivals within 6 sd of runs*k(k-1)/(n(n-1)), and at least two different kept sets must occur when 0 < k < n. "
+          "A case is non-trivial if it is a frequency case or both populations together hold at least 2 individuals, all "
+          "evaluated, on a stack of at least two populations; distinct = distinct input string."),
+    nontrivial=_nontrivial,
     trusted_base=[
         "Vec primitives (extend, truncate, into_iter/zip/chain/collect) represented by their list semantics",
-        "sort_unstable_by_key represented as 'stable sort of some permutation of the input' (tie order free, witness recovered from tags)",
-        "SliceRandom::shuffle represented by an arbitrary permutation (witness recovered from tags); its distribution is not modelled",
-        "population stack = plain list (refinement of Populations proved in C04)"],
-    assumptions=["objective values are never NaN (guaranteed by SingleObjective::try_from, C09)",
+        "sort_unstable_by_key represented as 'stable sort of some permutation of the input' (tie order free, witness recovered from tags); step K compares MuPlusLambda results as multisets (order inside the surviving population is not part of the statement; mu_plus_lambda_order_free, agree_up_to_order_sound)",
+        "SliceRandom::shuffle represented by an arbitrary permutation (witness recovered from tags); that it is *uniform* over the n! permutations is trusted and tied only statistically (frequency oracle, 6 sd)",
+        "population stack = plain list (refinement of Populations proved in C04)",
+        "Float.sqrt / Float arithmetic of the Lean runtime in the tolerance of the frequency oracle"],
+    assumptions=["objective values are never NaN (guaranteed by SingleObjective::try_from, C09); they form a total preorder (signed zeros tie) — the theorems assume exactly that (Preorder + TotalLE), not antisymmetry",
+                 "the State holds a Populations stack and a Random (replacement() panics otherwise, for every operator, before anything is pushed)",
+                 "scope: the six implementors of the Replacement trait (mod.rs, common.rs); sa::ExponentialAnnealingAcceptance is C17, bh::EventHorizon acts in place and is not a two-population operator",
                  "SplitMix64-seeded generator; mahf's Random::new(seed) (ChaCha12) for the component's own draws"],
 )
 CONFIG.update(
-    level_text=("Lean 4 theorems over an arbitrary linear order of objective values and every legal witness permutation: replacement "
-                "consumes two populations and pushes one (none on Err/panic), the result is a sub-multiset of parents+offspring "
-                "as (tag, objective) pairs, DiscardOffspring/Generational/Merge return parents/offspring/concatenation, "
-                "MuPlusLambda(mu) keeps min(mu, a+b) and never discards an individual strictly better than a kept one, "
-                "RandomReplacement keeps min(mu, a+b), KeepBetterAtIndex is position-wise with ties kept by the parent and Err on "
-                "unequal sizes; the executable predicate used by the check is proved to hold of the model "
-                "(model_satisfies_predicate). The model is tied to /repo by running the real components on exhaustive small and "
-                "seeded larger stacks and comparing with the compiled model under the witness recovered from the tags (K), and by "
-                "evaluating the predicate on the implementation's own output (O)."),
+    level_text=("Lean 4 theorems over an arbitrary total preorder of objective values (antisymmetry not assumed: covers f64 with "
+                "signed zeros) and every legal witness permutation: replacement consumes two populations and pushes one (none on "
+                "Err/panic), the result is a sub-multiset of parents+offspring as (tag, objective) pairs, "
+                "DiscardOffspring/Generational/Merge return parents/offspring/concatenation, MuPlusLambda(mu) keeps min(mu, a+b) and "
+                "never discards an individual strictly better than a kept one, RandomReplacement keeps min(mu, a+b), namely the "
+                "individuals at the first mu positions of the witness, and — counting over all n! legal witnesses — exactly "
+                "min(mu,n)*(n-1)! of them keep any given position, i.e. under a uniform shuffle every parent and every offspring "
+                "survives with the same probability min(mu,n)/n (random_replacement_uniform_survival); KeepBetterAtIndex is "
+                "position-wise with ties kept by the parent and Err on unequal sizes; the executable predicate used by the check is "
+                "proved to hold of the model (model_satisfies_predicate) and to be blind to the order of MuPlusLambda's result. The "
+                "model is tied to /repo by running the real components (through new+execute and through from_params+replace) on "
+                "exhaustive small, seeded larger (up to ~600 individuals) and boundary-mu stacks and comparing with the compiled "
+                "model under the witness recovered from the tags (K), by evaluating the predicate on the implementation's own "
+                "output (O), and by a frequency oracle for the uniformity of RandomReplacement's choice."),
     level_note=("Trusted: Lean kernel; list semantics of Vec primitives; harness + driver parsing/printing. The theorem is about "
                 "the model; agreement with the code is checked on the generated stacks only. partial: the distribution of "
-                "RandomReplacement's shuffle and the concrete tie order of sort_unstable are outside the model (left free)."),
+                "RandomReplacement's shuffle is tied statistically only (marginal and pairwise survival frequencies, 6 sd; the "
+                "pairwise frequencies have no Lean counterpart, only the marginal ones do); the concrete tie order of "
+                "sort_unstable and the order of MuPlusLambda's survivors are left free; outside the quantifier (unevaluated "
+                "individuals) MuPlusLambda may or may not panic."),
 )
